@@ -640,6 +640,44 @@ fn check() {
         }
     });
 
+    // ---- part A2: SOCKS4 0.0.0.0 is a destination, not the SOCKS4a marker (0.0.0.x with x != 0): the bytes that follow
+    //      the request belong to the tunnel and must not be read as a host name
+    for port in [0u16, 80, 65535] {
+        for follow in [&b"evil.example\0"[..], b"\0", b"a\0b\0"] {
+            let mut wire = vec![4u8, 1];
+            wire.extend(port.to_be_bytes());
+            wire.extend([0, 0, 0, 0]);
+            wire.extend(b"id\0");
+            wire.extend(follow);
+            cases.fetch_add(1, Ordering::Relaxed);
+            let d = Dest::Ip(SocketAddr::new("0.0.0.0".parse().unwrap(), port));
+            let replay = json!({"direction": "inbound", "codec": "Socks4", "destination": show(&d), "wire": hex(&wire), "following_bytes": hex(follow)});
+            let mut want_rest = follow.to_vec();
+            want_rest.extend(PAY);
+            match inbound_decode(&contexts, Inb::Socks4, &wire) {
+                Err(p) => chk.violation("inbound.Socks4", "panic:unspecified-address", p, replay),
+                Ok(None) => {
+                    refused.fetch_add(1, Ordering::Relaxed);
+                    outcomes.add(&(Inb::Socks4, "refused", "0.0.0.0".to_string()));
+                }
+                Ok(Some((t, rest))) => {
+                    outcomes.add(&(Inb::Socks4, "accepted", "0.0.0.0".to_string()));
+                    let td = dest_of(&t);
+                    if !td.as_ref().map(|x| same_dest(x, &d)).unwrap_or(false) {
+                        chk.violation(
+                            "inbound.Socks4",
+                            "destination-changed:unspecified-address-read-as-4a-marker",
+                            format!("client asked for {} (plain SOCKS4) and went on with {}; the rules see {}", show(&d), hex(follow), td.as_ref().map(show).unwrap_or("unknown".into())),
+                            replay,
+                        );
+                    } else if rest != want_rest {
+                        chk.violation("inbound.Socks4", "payload-boundary:unspecified-address", format!("bytes left for the tunnel are {} instead of {}", hex(&rest), hex(&want_rest)), replay);
+                    }
+                }
+            }
+        }
+    }
+
     // ---- part B: every reachable TargetAddress (plus the grid itself: HTTP CONNECT and SOCKS4a carry unbounded hosts) through every encoder
     let mut targets: BTreeSet<Dest> = reachable.lock().unwrap().iter().map(|(d, _)| d.clone()).collect();
     for d in &grid {
